@@ -10,10 +10,11 @@ C13 — stale-if-error serves the stored response on origin failure, within its 
 
 Both directions are proved: `sie_only_inside_window` (a STALE answer of a validation implies failure of
 the listed kinds, no mandatory validation, a directive on the stored response or the request, and the
-RFC window) and `sie_serves` (under those conditions — for a request without a max-age of its own and a
-stored response with a usable Date — the stored response IS returned, marked STALE once, with the RFC age
-of the instant of the failure). A request max-age shortens the lifetime the code uses (C13 does not say
-which lifetime "staleness" refers to then), so liveness is stated without it.
+RFC window) and `sie_serves` (under those conditions — for a request without min-fresh and a stored
+response with a usable Date — the stored response IS returned, marked STALE once, with the RFC age of the
+instant of the failure). The window is measured from the response's OWN lifetime whatever max-age the
+request carries: an exceeded request max-age forces the validation, it does not move the window (the
+pinned tree did this for max-age=0 only; see known_findings.json).
 -/
 namespace Httpcache.C13
 open Httpcache
@@ -35,16 +36,17 @@ theorem sie_statuses : ∀ c, isStaleErrorAllowed c = true ↔ c = 500 ∨ c = 5
     play no role: they are not among the sources. -/
 theorem sie_only_inside_window (cfg : Cfg) (t0 : Int) (req : Req) (e : Entry) (key : Str) (refs : List Ref) (ri : Option Nat)
     (mv : Bool) (ans : OriginAns) (tr : List Step) (x : Resp)
-    (hs : e.resp.status ≠ 304) (hT : TimesOK e) (h0 : (parseCC req.header).maxAge ≠ some 0)
+    (hs : e.resp.status ≠ 304) (hT : TimesOK e)
     (hle : ∀ r t1 b, ans = .resp r t1 b → t0 ≤ t1) (hle' : ∀ t1, ans = .err t1 → t0 ≤ t1)
     (h : Run (handleValidation cfg sGET req.header key e refs ri
-        (calculateFreshness cfg.glue t0 e (parseCC req.header) (parseCC e.resp.header)) (parseCC req.header) mv t0 ans
+        (transportFreshness cfg.glue t0 e (parseCC req.header) (parseCC e.resp.header)).1 (parseCC req.header) mv t0 ans
         (fun r => .ret r)) tr (.resp x))
     (hstale : Header.get x.header sStatusHeader = CacheStatus.stale.value) :
     mv = false ∧ (∀ r t1 b, ans = .resp r t1 b → isStaleErrorAllowed r.status = true) ∧
     ∃ n tfail, (Spec.directiveSeconds modelReader e.resp.header (str% "stale-if-error") = some n ∨
           Spec.directiveSeconds modelReader req.header (str% "stale-if-error") = some n) ∧
       Spec.withinWindow modelReader cfg.glue.parseTime (Spec.storedOfEntry e) tfail n = true := by
+  have htf := transport_fields_le cfg.glue t0 e (parseCC req.header) (parseCC e.resp.header)
   unfold handleValidation at h
   simp only [] at h
   have hne1 : CacheStatus.stale.value ≠ CacheStatus.revalidated.value := by decide
@@ -55,7 +57,7 @@ theorem sie_only_inside_window (cfg : Cfg) (t0 : Int) (req : Req) (e : Entry) (k
     split at h
     · rename_i hc
       simp only [Bool.and_eq_true, decide_eq_true_eq, Bool.not_eq_true'] at hc
-      obtain ⟨n, hn, hw⟩ := sie_sound cfg.glue t0 t1 e req.header (hle' t1 rfl) hs hT h0 hc.2
+      obtain ⟨n, hn, hw⟩ := sie_sound_gen cfg.glue t0 t1 e req.header _ (hle' t1 rfl) hs hT htf.1 htf.2.1 htf.2.2 hc.2
       exact ⟨hc.1.2, (fun r t b hh => by cases hh), ⟨n, t1, hn, hw⟩⟩
     · cases h
   · rename_i r t1 bodyOk
@@ -71,7 +73,7 @@ theorem sie_only_inside_window (cfg : Cfg) (t0 : Int) (req : Req) (e : Entry) (k
     · split at h
       · rename_i hc
         simp only [Bool.and_eq_true, decide_eq_true_eq, Bool.not_eq_true'] at hc
-        obtain ⟨n, hn, hw⟩ := sie_sound cfg.glue t0 t1 e req.header (hle r t1 bodyOk rfl) hs hT h0 hc.2
+        obtain ⟨n, hn, hw⟩ := sie_sound_gen cfg.glue t0 t1 e req.header _ (hle r t1 bodyOk rfl) hs hT htf.1 htf.2.1 htf.2.2 hc.2
         exact ⟨hc.1.2, (fun r' t b hh => by cases hh; exact hc.1.1.1), ⟨n, t1, hn, hw⟩⟩
       · exfalso
         split at h
@@ -86,14 +88,18 @@ theorem sie_only_inside_window (cfg : Cfg) (t0 : Int) (req : Req) (e : Entry) (k
           rw [hx] at hstale; exact hne3 hstale.symm
 
 /-- Liveness: when the validation of a stored response fails — the origin call errors or answers a
-    status of the table — validation is not mandatory, the request sets no max-age of its own, and the
+    status of the table — validation is not mandatory, the request carries no min-fresh, the validation
+    was reached because the response is stale or the request's max-age (of any value) is exceeded, and the
     stored response or the request carries stale-if-error = N with the response inside that window by
     the RFC definitions at the instant of the failure, then the exchange returns the stored response:
     same status and body, exactly one cache status STALE, X-From-Cache = 1, and an Age field that is
-    the RFC age at that instant in whole seconds. Nothing is written to the store. -/
+    the RFC age at that instant in whole seconds. Nothing is written to the store. The freshness handed
+    to the validation is the one the hit path computes (`transportFreshness`). -/
 theorem sie_serves (cfg : Cfg) (t0 t1 : Int) (req : Req) (e : Entry) (key : Str) (refs : List Ref) (ri : Option Nat)
     (ans : OriginAns) (hle : t0 ≤ t1) (hrt : e.receivedAt ≤ t0)
-    (hs : e.resp.status ≠ 304) (hT : TimesOK e) (hreq : (parseCC req.header).maxAge = none) (d : Int)
+    (hs : e.resp.status ≠ 304) (hT : TimesOK e) (hmf : (parseCC req.header).minFresh = none)
+    (hreach : (transportFreshness cfg.glue t0 e (parseCC req.header) (parseCC e.resp.header)).2 = true ∨
+              (transportFreshness cfg.glue t0 e (parseCC req.header) (parseCC e.resp.header)).1.isStale = true) (d : Int)
     (hd : Spec.httpTime cfg.glue.parseTime e.resp.header sDate = some d)
     (hdoc : Spec.heuristicallyCacheable.contains e.resp.status = true → isHeuristicStatus e.resp.status = true)
     (hfail : ans = .err t1 ∨ ∃ r b, ans = .resp r t1 b ∧ isStaleErrorAllowed r.status = true)
@@ -101,19 +107,18 @@ theorem sie_serves (cfg : Cfg) (t0 t1 : Int) (req : Req) (e : Entry) (key : Str)
           Spec.directiveSeconds modelReader req.header (str% "stale-if-error") = some n)
     (hw : Spec.withinWindow modelReader cfg.glue.parseTime (Spec.storedOfEntry e) t1 n = true) :
     ∃ x, Run (handleValidation cfg sGET req.header key e refs ri
-        (calculateFreshness cfg.glue t0 e (parseCC req.header) (parseCC e.resp.header)) (parseCC req.header) false t0 ans
+        (transportFreshness cfg.glue t0 e (parseCC req.header) (parseCC e.resp.header)).1 (parseCC req.header) false t0 ans
         (fun r => .ret r)) [] (.resp x) ∧
       x.status = e.resp.status ∧ x.body = e.resp.body ∧
       Header.values x.header sStatusHeader = [CacheStatus.stale.value] ∧
       Header.values x.header sFromCache = [['1']] ∧
       Header.values x.header sAge = [intToStr (Spec.currentAge cfg.glue.parseTime (Spec.storedOfEntry e) t1 / nsPerSec)] := by
-  have hc := sie_complete cfg.glue t0 t1 e req.header hle hrt hs hT hreq d hd hdoc n hn hw
-  have hf := servedHeader_fields .stale rfl (calculateFreshness cfg.glue t0 e (parseCC req.header) (parseCC e.resp.header)) t1
+  have hc := sie_complete cfg.glue t0 t1 e req.header hle hrt hs hT hmf hreach d hd hdoc n hn hw
+  have hf := servedHeader_fields .stale rfl (transportFreshness cfg.glue t0 e (parseCC req.header) (parseCC e.resp.header)).1 t1
     e.resp.header (parseCC e.resp.header)
-  have hage : ageSeconds (calculateFreshness cfg.glue t0 e (parseCC req.header) (parseCC e.resp.header)) t1 =
+  have hage : ageSeconds (transportFreshness cfg.glue t0 e (parseCC req.header) (parseCC e.resp.header)).1 t1 =
       Spec.currentAge cfg.glue.parseTime (Spec.storedOfEntry e) t1 / nsPerSec := by
-    have h0 : (parseCC req.header).maxAge ≠ some 0 := by rw [hreq]; simp
-    obtain ⟨ha, hts, _⟩ := calc_fields cfg.glue t0 e (parseCC req.header) (parseCC e.resp.header) h0
+    obtain ⟨ha, hts, _⟩ := transport_fields cfg.glue t0 e (parseCC req.header) (parseCC e.resp.header) hmf hreach
     unfold ageSeconds
     rw [ha, hts, age_eq cfg.glue t0 e hT, ← spec_age_step_eq cfg.glue.parseTime (Spec.storedOfEntry e) t0 t1 hle hrt]
     have : 0 ≤ Spec.currentAge cfg.glue.parseTime (Spec.storedOfEntry e) t1 := by
@@ -126,7 +131,7 @@ theorem sie_serves (cfg : Cfg) (t0 t1 : Int) (req : Req) (e : Entry) (key : Str)
         · exact Int.le_max_right _ _
       · unfold satSub; exact sat_nonneg (by omega)
     rw [Int.max_eq_left this]
-  refine ⟨serveStale (calculateFreshness cfg.glue t0 e (parseCC req.header) (parseCC e.resp.header)) t1 e, ?_, rfl, rfl, hf.1, hf.2.1, ?_⟩
+  refine ⟨serveStale (transportFreshness cfg.glue t0 e (parseCC req.header) (parseCC e.resp.header)).1 t1 e, ?_, rfl, rfl, hf.1, hf.2.1, ?_⟩
   · unfold handleValidation
     simp only []
     rcases hfail with h | ⟨r, b, h, hst⟩
